@@ -282,7 +282,8 @@ def prove(pc, goal, timeout_ms, cross=False, light=False, inputs=None):
             status, backend, model, reason, so = 'failed', 'z3-5.1(retry)', so2.model(), '', so2
     if status == 'undecided' or cross:
         smt = so.to_smt2()
-        others = run_external(smt, max(10, timeout_ms // 1000))
+        # second opinions: a generous limit when z3 left the obligation open, a short one when they only cross-check a verdict
+        others = run_external(smt, max(10, timeout_ms // 1000) if status == 'undecided' else 8)
         if status == 'undecided':
             for name, res in others.items():
                 if res == 'unsat':
